@@ -2,10 +2,14 @@ package checks
 
 import (
 	"bytes"
+	"context"
 	"encoding/base64"
 	"encoding/hex"
 	"fmt"
+	"net"
+	"sync"
 	"testing"
+	"time"
 
 	"verifharness/eng"
 	"verifharness/mon"
@@ -175,7 +179,71 @@ func runC03Paired(c *mon.Case) {
 	}
 }
 
+// deadlineProxy is a ProxyConn over the in-memory duplex that honours read
+// deadlines and is left open when a handshake fails.
+type deadlineProxy struct{ fakeProxy }
+
+func (d *deadlineProxy) SetReadDeadline(t time.Time) error { d.In.SetReadDeadline(t); return nil }
+func (d *deadlineProxy) SetDeadline(t time.Time) error     { d.In.SetReadDeadline(t); return nil }
+
+// runC03GrpcOpenTransport: the mismatch at the level applications use
+// (NoiseGrpcConn.ClientHandshake / ServerHandshake) over a transport that stays
+// open when the responder aborts silently: the initiator then runs into the
+// 5 s handshake read deadline, and a responder whose peer sends nothing does
+// too. Neither may report a completed handshake. Real time (5 s per case).
+func runC03GrpcOpenTransport(c *mon.Case) {
+	rng := c.Rng
+	pass := eng.Entropy(rng)
+	other := eng.Entropy(rng)
+	auth := authMarker(rng, 64)
+	cp := eng.NewMboxParty(eng.NewKey(rng), nil, other, nil, 0, 2)
+	sp := eng.NewMboxParty(eng.NewKey(rng), nil, pass, auth, 0, 2)
+	da, db, _, b2a := sim.NewDuplexPair()
+	silent := c.Idx%2 == 0 // the initiator never says anything
+	var wg sync.WaitGroup
+	var cconn, sconn net.Conn
+	var cerr, serr error
+	cdone := false
+	wg.Add(1)
+	go func() { defer wg.Done(); sconn, _, serr = sp.Noise.ServerHandshake(&deadlineProxy{fakeProxy{db}}) }()
+	if !silent {
+		wg.Add(1)
+		go func() {
+			defer wg.Done()
+			cconn, _, cerr = cp.Noise.ClientHandshake(context.Background(), "", &deadlineProxy{fakeProxy{da}})
+			cdone = true
+		}()
+	}
+	wg.Wait()
+	rep := map[string]any{"kind": "grpc-open-transport", "silent_initiator": silent, "responder_err": fmt.Sprint(serr), "initiator_err": fmt.Sprint(cerr)}
+	written := 0
+	for _, w := range b2a.Written {
+		written += len(w)
+	}
+	if serr == nil {
+		c.Shard.Violate("grpc|responder-completed", fmt.Sprintf("ServerHandshake returned no error (connection %v) although the initiator %s", sconn != nil, map[bool]string{true: "never sent anything", false: "used another passphrase"}[silent]), rep)
+	}
+	if written != 0 {
+		c.Shard.Violate("grpc|responder-wrote", fmt.Sprintf("the responder emitted %d bytes of handshake response", written), rep)
+	}
+	if cdone && cerr == nil {
+		c.Shard.Violate("grpc|initiator-completed", fmt.Sprintf("ClientHandshake returned no error (connection %v) although the passphrases differ and the responder never answered", cconn != nil), rep)
+	}
+	if cp.CD.AuthData() != nil {
+		c.Shard.Violate("grpc|auth-released", "the initiator holds auth data after a failed handshake", rep)
+	}
+	da.In.Close()
+	da.Out.Close()
+	c.Shard.Count("mismatch_handshakes", 1)
+	c.Shard.Count("grpc_open_transport_handshakes", 1)
+	c.Shard.Eval(fmt.Sprintf("grpc-open|%v", silent))
+}
+
 func runC03(c *mon.Case) {
+	if c.Idx%56 == 9 {
+		runC03GrpcOpenTransport(c)
+		return
+	}
 	if c.Idx%8 == 5 {
 		runC03Paired(c)
 		return
